@@ -11,6 +11,7 @@ import OFV.Model.All
 import OFV.Lemmas.Size
 import OFV.Lemmas.SizeList
 import OFV.Lemmas.Hist
+import OFV.Lemmas.LayNat
 namespace OFV.Model.Hist
 open OFV OFV.Go OFV.Model InstrAux
 
@@ -130,5 +131,26 @@ theorem instrActions_fold : ∀ (as : List V) (ty : Nat) (x0 : V) (pad : Bytes) 
     show (InstrActions.addAction _ a false >>= fun v' => runOps _ v' as) = _
     rw [step, Res.bind_ok, hx]
     simp
+
+/-- Hello.MarshalBinary() SUCCEEDS when the elements encode (Len() stable) and the uint16 size 8 + Σ Len() covers the
+    elements' encodings (no wrap-around, each element as long as it reports) -/
+theorem hello_encodes (ver ty xid : Nat) (ln : V) (es : List V) (ls : List UInt16) (ebs : List Bytes) (es' : List V)
+    (hl : mapM2 HelloElem.lenM es = .ok (ls, es)) (hm : mapM2 HelloElem.marshalM es = .ok (ebs, es'))
+    (hfit : 8 + ebs.flatten.length ≤ (8 + sum16 ls).toNat) :
+    ∃ bs v', Hello.marshalM (.obj "Hello" [.obj "Header" [.num ver, .num ty, ln, .num xid], .list es]) = .ok (bs, v') := by
+  have htl : ∀ p ∈ pCopy ([n8 ver, n8 ty] ++ be16 (n16 (8 + sum16 ls).toNat) ++ be32 (n32 xid)) :: ebs.map pCopy, p.Tight := by
+    intro p hp
+    rcases List.mem_cons.mp hp with rfl | hp
+    · trivial
+    · exact tight_map_pCopy ebs p hp
+  have hpl : piecesLen (pCopy ([n8 ver, n8 ty] ++ be16 (n16 (8 + sum16 ls).toNat) ++ be32 (n32 xid)) :: ebs.map pCopy) =
+      8 + ebs.flatten.length := by
+    have := piecesLen_append [pCopy ([n8 ver, n8 ty] ++ be16 (n16 (8 + sum16 ls).toNat) ++ be32 (n32 xid))] (ebs.map pCopy)
+    simp only [List.singleton_append] at this
+    rw [this, piecesLen_eq_bytes _ (tight_map_pCopy ebs), piecesBytes_map_pCopy]
+    simp [piecesLen, pCopy, Piece.adv]
+  simp only [Hello.marshalM, Hello.lenM, hl, Res.bind_ok, Header.setLength, V.u16, Header.bytes, hm,
+    fill_exact _ _ htl (by rw [hpl]; exact hfit)]
+  exact ⟨_, _, rfl⟩
 
 end OFV.Model.Hist
